@@ -404,6 +404,11 @@ def do_replay(path):
     return 0 if r["ok"] else 1
 
 
+def setup():
+    """MANIFEST.setup_cmd: pre-build the harness so that the first check is fast."""
+    common.go_build("./cmd/c04drive")
+
+
 def main(tier, replay):
     if replay:
         return do_replay(replay)
@@ -489,6 +494,15 @@ def main(tier, replay):
     th.join()
     acc = accessor_cases(exe, tier)
 
+    # thorough: the compiled theorems are re-checked by the independent checker
+    coqchk_note = "not run (quick tier)"
+    coqchk_ok = None
+    if tier == "thorough" and coq.get("ok"):
+        with common.Lock("coq"):
+            rc, out = common.run(["coqchk", "-silent", "-Q", ".", "Nexus", "Nexus.Props.C04"], cwd=common.COQ, timeout=1500)
+        coqchk_ok = rc == 0
+        coqchk_note = "coqchk -silent Nexus.Props.C04: %s" % ("ok" if coqchk_ok else "FAILED: " + out[-500:])
+
     # thorough: the same kind of streams under the race detector (sampling)
     race_note = "not run (quick tier)"
     if tier == "thorough":
@@ -512,6 +526,8 @@ def main(tier, replay):
         broken.append("Coq: " + (coq.get("failed") or "")[:600])
     if not acc["ok"]:
         broken.append("accessor correspondence: " + (acc.get("failed") or "")[:600])
+    if coqchk_ok is False:
+        broken.append(coqchk_note)
     unexplained = [s for s in unsafe if not any(explains(f, s) for f in findings.values())]
     if (unexplained or (broken and not findings)) and (not coq.get("ok")):
         # aim the streams at the offending sites, class by class
@@ -563,8 +579,8 @@ def main(tier, replay):
         trusted.append("Print Assumptions %s: %s" % (thm, txt))
     trusted += ["translator go/cmd/genc04 (go/parser, go/ast, go/types source importer)", "harness go/cmd/c04drive (generators, child-process supervision, signature extraction, shrinker)",
                 "Go 1.25 runtime (panic / fatal error reporting, race detector in the thorough tier)"]
-    n_obl = len(obligations) + 1
-    n_dis = len(discharged) + (1 if acc["ok"] else 0)
+    n_obl = len(obligations) + 1 + (1 if coqchk_ok is not None else 0)
+    n_dis = len(discharged) + (1 if acc["ok"] else 0) + (1 if coqchk_ok else 0)
     cov.update({
         "obligations": n_obl, "discharged": n_dis, "trusted_base": trusted,
         "obligation_names": obligations + ["cases/C04Cases.v:accessor_models_agree"],
@@ -586,6 +602,7 @@ def main(tier, replay):
                     for k, r in stats.items()},
         "liveness_probe": "after every history: publish/event, call/invocation/yield/result, wamp.session.count, fresh attach (every 4th also rawsocket+websocket) by uninvolved sessions",
         "race_tier": race_note,
+        "coqchk": coqchk_note,
         "findings": [{"signature": s, "known": bool(common.match_known(PID, s)), "trigger": findings[s].get("trigger"), "reproduced": findings[s].get("reproduced"),
                       "occurrences": findings[s].get("occurrences")} for s in sorted(findings)],
         "partial": "theorem: value-level totality over the regenerated site table, close discipline / policy / nil-delivery of the models; "
